@@ -62,8 +62,28 @@ func runC12(c *core.Ctx) {
 		}
 		name, email, icl := gen.Identity(w.Rng)
 		w.Goit("init")
-		w.Goit("config", "user.name", name)
-		w.Goit("config", "user.email", email)
+		// where the two parts of the identity come from: both local, both global, or one each (with an unrelated
+		// local key, so that a local [user] section exists without the part that is global)
+		switch w.Hist % 5 {
+		case 1:
+			w.Goit("config", "--global", "user.name", name)
+			w.Goit("config", "--global", "user.email", email)
+		case 2:
+			w.Goit("config", "--global", "user.name", name)
+			w.Goit("config", "user.email", email)
+		case 3:
+			w.Goit("config", "user.name", name)
+			w.Goit("config", "--global", "user.email", email)
+			w.Goit("config", "user.signingkey", "k")
+		case 4:
+			w.Goit("config", "--global", "user.name", "Overridden Global")
+			w.Goit("config", "--global", "user.email", "overridden@global.example")
+			w.Goit("config", "user.name", name)
+			w.Goit("config", "user.email", email)
+		default:
+			w.Goit("config", "user.name", name)
+			w.Goit("config", "user.email", email)
+		}
 		tzs := gen.TZName(off)
 		for i := 0; i < 2; i++ {
 			msg, mclass := gen.Message(w.Rng, i+1)
